@@ -210,6 +210,16 @@ def gen_cases(rng, tier, h):
             w, hh = _size(rng, hi if rng.chance(0.85) else max(3, hi // 3))
             c.append(_img(rng, fmt, wpp, w, hh))
         cases.append(c)
+    # wide / tall images around powers of two (a row or column count that is an exact multiple of an internal block or
+    # stride size is where a blocked / vectorised rewrite of the row loop goes wrong)
+    pow2 = [v for k in range(5, 11) for v in ((1 << k) - 1, 1 << k, (1 << k) + 1)] + [768, 1280]
+    for fmt, wpp in FORMATS:
+        ws = [256, 512] + [rng.pick(pow2) for _ in range(2 if quick else 12)]
+        if not quick:
+            ws += pow2
+        cases.append([_img(rng, fmt, wpp, w, rng.pick([1, 2, 3])) for w in ws])
+        hs = [256] + [rng.pick(pow2) for _ in range(1 if quick else 8)]
+        cases.append([_img(rng, fmt, wpp, rng.pick([1, 2]), hh) for hh in hs])
     # every format at the corner sizes
     for fmt, wpp in FORMATS:
         cases.append([_img(rng, fmt, wpp, w, hh) for (w, hh) in ((1, 1), (1, 2), (2, 1), (1, 5), (5, 1), (2, 3), (3, 2), (4, 3))])
